@@ -70,7 +70,7 @@ Proof.
     apply andb_true_iff. split.
     + destruct keep; [reflexivity|]. cbn [negb orb]. unfold m_get_cell. cbv zeta. destruct (theight t <=? ny y t); reflexivity.
     + destruct clone; [|reflexivity]. cbn [negb orb].
-      pose proof (copies_detached t (GGetCell x y true keep) eq_refl) as Hd. cbn [m_get res_handles concat app map] in Hd.
+      pose proof (copies_detached false t (GGetCell x y true keep) eq_refl) as Hd. cbn [m_get res_handles concat app map] in Hd.
       inversion Hd as [|? ? Hh _]; subst. rewrite Hh. reflexivity.
   - (* get_row *)
     unfold forall2b. cbn [length combine forallb fst snd Nat.eqb andb]. rewrite !andb_true_r.
